@@ -52,9 +52,10 @@ Proof. intros H. do 12 (destruct m as [|m]; [reflexivity|]). lia. Qed.
 
 Record wdate := { w_wd : nat; w_day : Z; w_mon : nat (* 0 = Jan *); w_year : Z; w_hour : Z; w_min : Z; w_sec : Z;
                   w_east : bool; w_zh : Z; w_zm : Z; w_short_day : bool (* "2" instead of "02" *) }.
-Record wf_date (f : wdate) : Prop := {
+(* the layout is met: every field is in the range of its column; whether the day exists in the month is judged separately *)
+Record wf_shape (f : wdate) : Prop := {
   f_wd : (w_wd f < 7)%nat; f_mon : (w_mon f < 12)%nat;
-  f_day : 1 <= w_day f <= days_in (Z.of_nat (w_mon f) + 1) (w_year f);
+  f_day : 0 <= w_day f < 100;          (* anything that can be written with two digits *)
   f_year : 0 <= w_year f < 10000; f_hour : 0 <= w_hour f < 24; f_min : 0 <= w_min f < 60; f_sec : 0 <= w_sec f < 60;
   f_zh : 0 <= w_zh f <= 24; f_zm : 0 <= w_zm f <= 60;
   f_short : w_short_day f = true -> w_day f < 10 }.
@@ -78,10 +79,11 @@ Proof. intros H. do 12 (destruct m as [|m]; [eexists _, _; split; [reflexivity|s
 Lemma days_in_le m y : days_in m y <= 31.
 Proof. unfold days_in. destruct (m =? 2); [destruct (is_leap y); lia|]. destruct (_ || _); lia. Qed.
 
-Theorem parse_when_render f : wf_date f -> parse_when (render_when f) = Some (unix_of f, offset_of f).
+Definition day_exists (f : wdate) : bool := (1 <=? w_day f) && (w_day f <=? days_in (Z.of_nat (w_mon f) + 1) (w_year f)).
+Theorem parse_when_shape f : wf_shape f ->
+  parse_when (render_when f) = if day_exists f then Some (unix_of f, offset_of f) else None.
 Proof.
   intros [Hwd Hmon Hday Hyear Hhour Hmin Hsec Hzh Hzm Hshort].
-  pose proof (days_in_le (Z.of_nat (w_mon f) + 1) (w_year f)) as D31.
   unfold parse_when, render_when.
   rewrite (lookup_day _ _ Hwd). cbn [bind].
   (* ", " then the day *)
@@ -132,12 +134,23 @@ Proof.
   unfold num_tz. unfold d2 at 1 2. cbn [app]. fold (d2 (w_zh f)). fold (d2 (w_zm f)). rewrite Z1, Z2.
   destruct (Z.ltb_spec 24 (w_zh f)); [lia|]. destruct (Z.ltb_spec 60 (w_zm f)); [lia|]. cbn [orb].
   unfold unix_of, offset_of. destruct (w_east f); cbn [bind]; cbv zeta.
-  - change (ceq "+"%char "+"%char) with true. cbv iota.
-    destruct (Z.ltb_spec (w_day f) 1); [lia|]. destruct (Z.ltb_spec (days_in (Z.of_nat (w_mon f) + 1) (w_year f)) (w_day f)); [lia|]. reflexivity.
-  - change (ceq "-"%char "+"%char) with false. change (ceq "-"%char "-"%char) with true. cbv iota.
-    destruct (Z.ltb_spec (w_day f) 1); [lia|]. destruct (Z.ltb_spec (days_in (Z.of_nat (w_mon f) + 1) (w_year f)) (w_day f)); [lia|]. reflexivity.
+  - change (ceq "+"%char "+"%char) with true. cbv iota. unfold day_exists.
+    destruct (Z.ltb_spec (w_day f) 1); destruct (Z.leb_spec 1 (w_day f)); try lia; cbn [orb andb]; [reflexivity|].
+    destruct (Z.ltb_spec (days_in (Z.of_nat (w_mon f) + 1) (w_year f)) (w_day f)); destruct (Z.leb_spec (w_day f) (days_in (Z.of_nat (w_mon f) + 1) (w_year f))); try lia; reflexivity.
+  - change (ceq "-"%char "+"%char) with false. change (ceq "-"%char "-"%char) with true. cbv iota. unfold day_exists.
+    destruct (Z.ltb_spec (w_day f) 1); destruct (Z.leb_spec 1 (w_day f)); try lia; cbn [orb andb]; [reflexivity|].
+    destruct (Z.ltb_spec (days_in (Z.of_nat (w_mon f) + 1) (w_year f)) (w_day f)); destruct (Z.leb_spec (w_day f) (days_in (Z.of_nat (w_mon f) + 1) (w_year f))); try lia; reflexivity.
 Qed.
+
+(* a well-formed date: the shape, and the day exists in that month of that year *)
+Definition wf_date (f : wdate) : Prop := wf_shape f /\ day_exists f = true.
+Theorem parse_when_render f : wf_date f -> parse_when (render_when f) = Some (unix_of f, offset_of f).
+Proof. intros [W D]. rewrite (parse_when_shape f W). now rewrite D. Qed.
+(* a day that does not exist - "00", "31 Apr", "29 Feb" of a common year, "32" ... - is refused (a malformed date is an error) *)
+Theorem parse_when_no_such_day f : wf_shape f -> day_exists f = false -> parse_when (render_when f) = None.
+Proof. intros W D. rewrite (parse_when_shape f W). now rewrite D. Qed.
 Print Assumptions parse_when_render.
+Print Assumptions parse_when_no_such_day.
 
 (* a concrete date meets the hypotheses (non-vacuity), with one and with two digits for the day *)
 Example wf_date_example :
@@ -147,7 +160,7 @@ Example wf_date_example :
   render_when {| w_wd := 1; w_day := 2; w_mon := 0; w_year := 2006; w_hour := 15; w_min := 4; w_sec := 5; w_east := false; w_zh := 7; w_zm := 0; w_short_day := false |}
     = s "Mon, 02 Jan 2006 15:04:05 -0700" /\
   unix_of {| w_wd := 1; w_day := 2; w_mon := 0; w_year := 2006; w_hour := 15; w_min := 4; w_sec := 5; w_east := false; w_zh := 7; w_zm := 0; w_short_day := true |} = 1136239445.
-Proof. split; [constructor; cbn; try lia; vm_compute; intuition congruence|]. split; [reflexivity|]. split; reflexivity. Qed.
+Proof. split; [split; [constructor; cbn; try lia; vm_compute; intuition congruence|reflexivity]|]. split; [reflexivity|]. split; reflexivity. Qed.
 
 (* what the model refuses (each is what time.Parse refuses; the tie compares them on mutated dates): *)
 Example refused_dates : forall x, In x (map s ["Mon, 32 Jan 2006 15:04:05 -0700"; "Thu, 29 Feb 2023 23:59:59 +0000"; "Mon, 02 Jan 2006 24:04:05 -0700";
